@@ -92,7 +92,9 @@ VolReg(m, id) == vreg' = vreg \cup {<<m, id>>} /\ UNCHANGED <<kind, given, inuse
 Pending(p) == {r \in pend : r.p = p}
 Call(p, op, m, vol, cnt, v) ==
   /\ Pending(p) = {}
-  /\ op = "next" => <<m, vol>> \in reg
+  \* the enabling rule: the volume is registered at m, or a heartbeat of its server is being processed by m right now
+  \* (the registration happens somewhere inside that handler; the assignment is judged when it returns)
+  /\ op = "next" => (<<m, vol>> \in reg \/ \E r \in pend : r.op = "hb" /\ r.m = m /\ r.vol = vol)
   /\ op = "hb" => v = MaxUsed(vol)
   /\ pend' = pend \cup {[p |-> p, op |-> op, m |-> m, vol |-> vol, cnt |-> cnt, v |-> v]}
   /\ UNCHANGED <<kind, given, inuse, reg, gen, smax, vgiven, vreg>>
@@ -104,6 +106,10 @@ RetWith(p, lo, adm(_, _, _, _)) ==
                              /\ UNCHANGED <<kind, inuse, reg, gen, smax, vgiven, vreg>>
          [] r.op = "hb" -> HbEff(r.m, r.vol, r.v) /\ UNCHANGED <<kind, given, inuse, gen, vgiven, vreg>>
          [] OTHER -> SetMaxEff(r.m, r.v) /\ UNCHANGED <<kind, given, inuse, reg, gen, vgiven, vreg>>
+
+(* an assignment request that the master refused (an error instead of a key range): nothing was handed out *)
+RetRefused(p) == \E r \in Pending(p) : /\ r.op = "next" /\ pend' = pend \ {r}
+                                        /\ UNCHANGED <<kind, given, inuse, reg, gen, smax, vgiven, vreg>>
 
 (* ------------- generator / model-checking view of layer A alone ------------- *)
 Log(op) == hist' = Append(hist, op)
